@@ -318,12 +318,19 @@ type c08LOp struct {
 	ID   int64 `json:"id"` // acquire: returned stateID; record: id passed
 	Err  bool  `json:"err"`
 	Flag int64 `json:"flag"` // acquire: permitted
+	Now  int64 `json:"now"`  // virtual clock (ns after the base second) of the operation
+	Dur  int64 `json:"dur"`  // record: duration passed
 }
 
 type c08LObs struct {
 	Ops   []c08LOp `json:"ops"`
 	State int64    `json:"state"`
 	ID    int64    `json:"id"`
+	Total int64    `json:"total"` // results in the window at the end
+	// forced-overlap cases only: A was parked inside the critical section / B was seen queued on the lock / B returned first
+	Parked bool `json:"parked"`
+	Queued bool `json:"queued"`
+	BFirst bool `json:"bfirst"`
 }
 
 func c08RunLin(in c08LIn) (obs c08LObs) {
@@ -376,7 +383,7 @@ func c08RunLin(in c08LIn) (obs c08LObs) {
 	}
 	sort.Slice(obs.Ops, func(i, j int) bool { return obs.Ops[i].Call < obs.Ops[j].Call })
 	cb.lock.Lock()
-	obs.State, obs.ID = int64(cb.state), int64(cb.stateID)
+	obs.State, obs.ID, obs.Total = int64(cb.state), int64(cb.stateID), int64(cb.window.Total())
 	cb.lock.Unlock()
 	return
 }
